@@ -17,10 +17,10 @@ ConcatAll(f, n) == IF n = 0 THEN <<>> ELSE ConcatAll(f, n - 1) \o f[n]
 \* a probe: times (non-decreasing), clusters, templates per spike; nch channels; ntm templates;
 \* chmap: raw channel numbers; pcind: per template one stored channel index; tfind: per template one template index
 ProbeSet == { [times |-> t, sc |-> c, st |-> s, nch |-> nc, ntm |-> nt,
-               chmap |-> [i \in 1..nc |-> i - 1], pcind |-> [i \in 1..nt |-> nc - 1], tfind |-> [i \in 1..nt |-> nt - 1]] :
-              t \in {<<0>>, <<1>>, <<0, 1>>, <<1, 1>>}, nc \in 1..2, nt \in 1..2,
+               chmap |-> cm, pcind |-> [i \in 1..nt |-> nc - 1], tfind |-> [i \in 1..nt |-> nt - 1]] :
+              t \in {<<0>>, <<0, 1>>}, nc \in 1..2, nt \in 1..2, cm \in {<<0>>, <<2>>, <<0, 1>>, <<1, 0>>, <<0, 3>>},
               c \in {<<0>>, <<2>>, <<0, 2>>, <<2, 0>>}, s \in {<<0>>, <<1>>, <<0, 1>>, <<1, 0>>} }
-WellFormed(p) == /\ Len(p.times) = Len(p.sc) /\ Len(p.sc) = Len(p.st)
+WellFormed(p) == /\ Len(p.times) = Len(p.sc) /\ Len(p.sc) = Len(p.st) /\ Len(p.chmap) = p.nch
                  /\ \A i \in 1..Len(p.st) : p.st[i] < p.ntm
 Init == /\ probes \in [1..K -> {p \in ProbeSet : WellFormed(p)}]
         /\ pc = "times" /\ spikeOrder = <<>> /\ outTimes = <<>> /\ outClu = <<>> /\ outTmp = <<>>
@@ -98,6 +98,15 @@ PcIndShifted == Done => \A k \in 1..K : \A t \in 1..probes[k].ntm :
 \* a merged spike's template id must index a template row lying on the spike's own probe block
 SpikeTemplateOnOwnBlock == Done => \A r \in 1..Len(spikeOrder) :
                      outTemplates[outTmp[r] + 1] = {c \in 1..Len(outChanProbe) : outChanProbe[c] = spikeOrder[r][1] - 1}
+\* ---- ALF export of the merged dataset: alf.make_channel_objects re-expresses raw indices per probe
+RECURSIVE AlfRaw(_, _)
+AlfRaw(k, off) == IF k > K THEN <<>> ELSE
+   LET blk == {c \in 1..Len(outChanProbe) : outChanProbe[c] = k - 1}
+       vals == [c \in 1..Len(outChanMap) |-> outChanMap[c]]
+       mx == CHOOSE x \in {outChanMap[c] : c \in blk} : \A c \in blk : outChanMap[c] <= x
+       lo == CHOOSE c \in blk : \A d \in blk : c <= d
+   IN [i \in 1..Cardinality(blk) |-> outChanMap[lo + i - 1] - off] \o AlfRaw(k + 1, IF AsPinned THEN off + mx ELSE mx)
+RawIndRoundTrip == Done => AlfRaw(1, 0) = ConcatAll([k \in 1..K |-> probes[k].chmap], K)
 TfIndShifted == Done => \A k \in 1..K : \A t \in 1..probes[k].ntm :
                      outTfInd[NtmBefore(k) + t] - NtmBefore(k) = probes[k].tfind[t]
 ====
